@@ -37,7 +37,7 @@ From Yv Require Import Common.Base.
 
 Inductive errno :=
 | ENOENT | EEXIST | ENOTDIR | EISDIR | EBADF | EINVAL | ESPIPE | EPIPE
-| EMFILE | EACCES | ELOOP | EOTHER.
+| EMFILE | EACCES | ELOOP | ESRCH | EOTHER.
 
 Inductive kind := KReg | KDir | KFifo | KOther.
 
@@ -65,13 +65,19 @@ Record sigstate := mkSig {
   g_caught : list N              (* caught and not yet collected *)
 }.
 
-Record proc := mkProc { p_fds : fdtab; p_cwd : stack; p_umask : N; p_sig : sigstate }.
+(* [p_limit]: the soft RLIMIT_NOFILE; a descriptor number must be below it *)
+(* [p_id] = (process ID, process group ID); IDs are symbolic: the process at
+   depth d of the fork nesting has ID d + 1 *)
+Record proc := mkProc { p_fds : fdtab; p_cwd : stack; p_umask : N; p_sig : sigstate; p_limit : N;
+                        p_id : N * N }.
 
 Record kstate := mkK {
   k_ino : list inode;
   k_ofd : list ofd;
   k_cur : proc;                (* the running process *)
-  k_susp : list proc           (* its waiting ancestors, parent first *)
+  k_susp : list proc;          (* its waiting ancestors, parent first *)
+  k_skip : option (N * nat)    (* the running process was killed by this signal; the rest of
+                                  its operations (with this many nested forks open) is skipped *)
 }.
 
 Inductive access := ARd | AWr | ARdWr.
@@ -81,6 +87,15 @@ Record oflags := mkFl {
   f_cloexec : bool; f_dir : bool }.
 
 Inductive whence := WSet | WCur | WEnd.
+
+Inductive ktarget :=
+| TSelf            (* kill(getpid()) *)
+| TParent          (* kill(getppid()) *)
+| TGroup0          (* kill(0): the caller's process group *)
+| TNegPgid         (* kill(-getpgrp()): the same group, named *)
+| TNegPid.         (* kill(-getpid()): the group the caller leads, if it leads one *)
+
+Inductive cstat := CExited | CSignaled (sig : N).
 
 Inductive op :=
 | OOpen (p : str) (a : access) (f : oflags) (mode : N)
@@ -100,6 +115,9 @@ Inductive op :=
 | OGetfd (fd : N)
 | OSetfd (fd : N) (cx : bool)
 | OAccess (fd : N)
+| OSetrlimit (n : N)          (* soft RLIMIT_NOFILE *)
+| OSetpgid0                   (* setpgid(0, 0): the caller becomes the leader of a new group *)
+| OKill (t : ktarget) (sig : N)
 | OSigaction (sig : N) (d : disp)
 | OGetSigaction (sig : N)
 | ORaise (sig : N)
@@ -124,6 +142,8 @@ Inductive res :=
 | RErr (e : errno)
 | RDisp (d : disp)
 | RSigs (l : list N)          (* a set of signals, ascending *)
+| RSkip                       (* not executed: the process had been killed *)
+| RChild (c : cstat)          (* how the child ended (reported at its exit) *)
 | ROut                        (* model only: outside the compared domain *)
 | RHang                       (* harness only: the call did not return *)
 | RPanic.                     (* harness only: the implementation panicked in this call *)
@@ -268,15 +288,15 @@ Definition live_end (s : kstate) (i : nat) (want : ofd -> bool) : bool :=
 Definition pipe_cap : N := 1024.    (* the smaller of the two pipe capacities *)
 
 Definition set_cur (s : kstate) (p : proc) : kstate :=
-  mkK (k_ino s) (k_ofd s) p (k_susp s).
+  mkK (k_ino s) (k_ofd s) p (k_susp s) (k_skip s).
 Definition set_fds (s : kstate) (t : fdtab) : kstate :=
-  set_cur s (mkProc t (p_cwd (k_cur s)) (p_umask (k_cur s)) (p_sig (k_cur s))).
+  set_cur s (mkProc t (p_cwd (k_cur s)) (p_umask (k_cur s)) (p_sig (k_cur s)) (p_limit (k_cur s)) (p_id (k_cur s))).
 Definition set_sig (s : kstate) (g : sigstate) : kstate :=
-  set_cur s (mkProc (p_fds (k_cur s)) (p_cwd (k_cur s)) (p_umask (k_cur s)) g).
+  set_cur s (mkProc (p_fds (k_cur s)) (p_cwd (k_cur s)) (p_umask (k_cur s)) g (p_limit (k_cur s)) (p_id (k_cur s))).
 Definition set_ino (s : kstate) (l : list inode) : kstate :=
-  mkK l (k_ofd s) (k_cur s) (k_susp s).
+  mkK l (k_ofd s) (k_cur s) (k_susp s) (k_skip s).
 Definition set_ofd (s : kstate) (l : list ofd) : kstate :=
-  mkK (k_ino s) l (k_cur s) (k_susp s).
+  mkK (k_ino s) l (k_cur s) (k_susp s) (k_skip s).
 
 Definition fds (s : kstate) : fdtab := p_fds (k_cur s).
 
@@ -295,6 +315,12 @@ Definition install (s : kstate) (o : ofd) (cx : bool) : kstate * N :=
   let id := length (k_ofd s) in
   let fd := lowest_free (fds s) 0 in
   (set_fds (set_ofd s (k_ofd s ++ [o])) (fd_put (fds s) fd (mkEnt id cx)), fd).
+
+(* a descriptor >= m below the limit is free *)
+Definition can_alloc (s : kstate) (m : N) : bool :=
+  N.ltb (lowest_free (fds s) m) (p_limit (k_cur s)).
+
+Definition default_limit : N := 1024.
 
 (* ---- open ------------------------------------------------------------------------ *)
 
@@ -327,7 +353,7 @@ Definition add_entry (l : list inode) (d : nat) (name : str) (i : nat) : list in
   | _ => l
   end.
 
-Definition k_open (s : kstate) (p : str) (a : access) (f : oflags) (mode : N) : kstate * res :=
+Definition k_open_inner (s : kstate) (p : str) (a : access) (f : oflags) (mode : N) : kstate * res :=
   if negb (flags_ok a f) || negb (nonempty p) then (s, ROut) else
   let cs := comps p in
   let whole :=
@@ -366,6 +392,17 @@ Definition k_open (s : kstate) (p : str) (a : access) (f : oflags) (mode : N) : 
         end
   end.
 
+(* With no descriptor available an open that would otherwise succeed fails
+   with EMFILE and has no effect (nothing is created or truncated: Linux
+   reserves the descriptor first).  Which error wins when the open would fail
+   anyway is not specified: outside the domain. *)
+Definition k_open (s : kstate) (p : str) (a : access) (f : oflags) (mode : N) : kstate * res :=
+  if can_alloc s 0 then k_open_inner s p a f mode
+  else match snd (k_open_inner s p a f mode) with
+       | RFd _ => (s, RErr EMFILE)
+       | _ => (s, ROut)
+       end.
+
 (* ---- descriptors ------------------------------------------------------------------- *)
 
 Definition fd_limit : N := 200.     (* descriptors the sequences may name *)
@@ -380,6 +417,9 @@ Definition k_dup (s : kstate) (fd m : N) (cx : bool) : kstate * res :=
   match fd_get (fds s) fd with
   | None => (s, RErr EBADF)
   | Some e =>
+      if N.leb (p_limit (k_cur s)) m then (s, RErr EINVAL)
+      else if negb (can_alloc s m) then (s, RErr EMFILE)
+      else
       let fd' := lowest_free (fds s) m in
       (set_fds s (fd_put (fds s) fd' (mkEnt (e_ofd e) cx)), RFd fd')
   end.
@@ -390,6 +430,7 @@ Definition k_dup2 (s : kstate) (fd to : N) : kstate * res :=
   | None => (s, RErr EBADF)
   | Some e =>
       if N.eqb fd to then (s, RFd to)
+      else if N.leb (p_limit (k_cur s)) to then (s, RErr EBADF)
       else (set_fds s (fd_put (fds s) to (mkEnt (e_ofd e) false)), RFd to)
   end.
 
@@ -517,12 +558,12 @@ Definition k_stat (s : kstate) (p : str) : kstate * res :=
 
 Definition k_umask (s : kstate) (m : N) : kstate * res :=
   if N.ltb 511 m then (s, ROut) else
-  (set_cur s (mkProc (fds s) (p_cwd (k_cur s)) m (p_sig (k_cur s))), RMode (p_umask (k_cur s))).
+  (set_cur s (mkProc (fds s) (p_cwd (k_cur s)) m (p_sig (k_cur s)) (p_limit (k_cur s)) (p_id (k_cur s))), RMode (p_umask (k_cur s))).
 
 Definition k_chdir (s : kstate) (p : str) : kstate * res :=
   match resolve (k_ino s) (p_cwd (k_cur s)) p with
   | WOk st => if is_dir (k_ino s) (top st)
-              then (set_cur s (mkProc (fds s) st (p_umask (k_cur s)) (p_sig (k_cur s))), RUnit)
+              then (set_cur s (mkProc (fds s) st (p_umask (k_cur s)) (p_sig (k_cur s)) (p_limit (k_cur s)) (p_id (k_cur s))), RUnit)
               else (s, RErr ENOTDIR)
   | WErr e => (s, RErr e)
   | WOut => (s, ROut)
@@ -536,7 +577,10 @@ Definition k_getcwd (s : kstate) : kstate * res :=
 Definition k_pipe (s : kstate) : kstate * res :=
   let i := length (k_ino s) in
   let s0 := set_ino s (k_ino s ++ [IFifo []]) in
+  if negb (can_alloc s 0) then (s, RErr EMFILE) else
   let '(s1, r) := install s0 (mkOfd i 0 true false false) false in
+  (* no second descriptor: nothing stays allocated *)
+  if negb (can_alloc s1 0) then (s, RErr EMFILE) else
   let '(s2, w) := install s1 (mkOfd i 0 false true false) false in
   (s2, RPipe r w).
 
@@ -561,17 +605,26 @@ Definition sort_by {A} (key : A -> str) (l : list A) : list A :=
 Definition k_readdir (s : kstate) (p : str) : kstate * res :=
   match resolve (k_ino s) (p_cwd (k_cur s)) p with
   | WOk st => match nth_error (k_ino s) (top st) with
-              | Some (IDir _ ents) => (s, RNames (sort_by (fun x => x) (map fst ents)))
-              | Some _ => (s, RErr ENOTDIR)
+              | Some (IDir _ ents) =>
+                  (* the directory stream needs a descriptor while it is read *)
+                  if can_alloc s 0 then (s, RNames (sort_by (fun x => x) (map fst ents)))
+                  else (s, RErr EMFILE)
+              | Some _ => if can_alloc s 0 then (s, RErr ENOTDIR) else (s, ROut)
               | None => (s, ROut)
               end
-  | WErr e => (s, RErr e)
+  (* (which error wins without a free descriptor is not specified) *)
+  | WErr e => if can_alloc s 0 then (s, RErr e) else (s, ROut)
   | WOut => (s, ROut)
   end.
 
+Definition k_setrlimit (s : kstate) (n : N) : kstate * res :=
+  if N.eqb n 0 || N.ltb default_limit n then (s, ROut) else
+  (set_cur s (mkProc (fds s) (p_cwd (k_cur s)) (p_umask (k_cur s)) (p_sig (k_cur s)) n (p_id (k_cur s))), RUnit).
+
 (* ---- signals ------------------------------------------------------------------------------------- *)
 
-Definition nsig : N := 5.
+Definition nsig : N := 6.        (* 5 = SIGTSTP: the default action stops the process *)
+Definition sigtstp : N := 5.
 
 Fixpoint mem_n (x : N) (l : list N) : bool :=
   match l with [] => false | y :: l' => N.eqb x y || mem_n x l' end.
@@ -619,7 +672,7 @@ Fixpoint deliver_pending (g : sigstate) (cands : list N) : option sigstate :=
       else deliver_pending g cands'
   end.
 
-Definition all_sigs : list N := [0; 1; 2; 3; 4]%N.
+Definition all_sigs : list N := [0; 1; 2; 3; 4; 5]%N.
 
 Definition sigs_ok (l : list N) : bool := forallb (fun x => N.ltb x nsig) l.
 
@@ -639,9 +692,10 @@ Definition k_raise (s : kstate) (sig : N) : kstate * res :=
   if negb (N.ltb sig nsig) then (s, ROut) else
   let g := p_sig (k_cur s) in
   if mem_n sig (g_mask g) then
-    (* blocked: stays pending (once), unless it is ignored *)
+    (* blocked: stays pending (once).  POSIX leaves open whether a blocked
+       signal whose action is "ignore" is discarded or stays pending *)
     match get_disp (g_disp g) sig with
-    | DIgnore => (s, RUnit)
+    | DIgnore => (s, ROut)
     | _ => (set_sig s (mkSig (g_disp g) (g_mask g) (insert_n sig (g_pend g)) (g_caught g)), RUnit)
     end
   else match deliver g sig with
@@ -669,25 +723,121 @@ Definition k_sigmask (s : kstate) (how : N) (sigs : list N) : kstate * res :=
 
 Definition k_fork (s : kstate) : kstate * res :=
   (* the child is a copy of the parent and shares its open file descriptions;
-     it inherits dispositions and the mask, and has no pending signals.
+     it inherits dispositions, the mask, the limit and the process group, and
+     has no pending signals.
      (Caught-but-uncollected signals are an implementation artefact on both
      sides: the sequences collect them before forking.) *)
   let p := k_cur s in
   let g := p_sig p in
   (mkK (k_ino s) (k_ofd s)
-       (mkProc (p_fds p) (p_cwd p) (p_umask p) (mkSig (g_disp g) (g_mask g) [] []))
-       (p :: k_susp s),
+       (mkProc (p_fds p) (p_cwd p) (p_umask p) (mkSig (g_disp g) (g_mask g) [] []) (p_limit p)
+               (N.of_nat (length (k_susp s)) + 2, snd (p_id p))%N)
+       (p :: k_susp s) None,
    match g_caught g with [] => RUnit | _ => ROut end).
 
 Definition k_exit (s : kstate) : kstate * res :=
   match k_susp s with
   | [] => (s, ROut)
-  | parent :: rest => (mkK (k_ino s) (k_ofd s) parent rest, RUnit)
+  | parent :: rest => (mkK (k_ino s) (k_ofd s) parent rest None, RChild CExited)
+  end.
+
+(* ---- process groups, kill ---------------------------------------------------------------------------- *)
+
+Definition k_setpgid0 (s : kstate) : kstate * res :=
+  let p := k_cur s in
+  (set_cur s (mkProc (p_fds p) (p_cwd p) (p_umask p) (p_sig p) (p_limit p) (fst (p_id p), fst (p_id p))),
+   RUnit).
+
+Inductive dres := DOk (g : sigstate) | DFatal | DStop | DUnspec.
+
+(* the effect of generating [sig] for a process with signal state [g] *)
+Definition generate (g : sigstate) (sig : N) : dres :=
+  match get_disp (g_disp g) sig with
+  | DIgnore => if mem_n sig (g_mask g) then DUnspec else DOk g
+  | DCatch =>
+      if mem_n sig (g_mask g)
+      then DOk (mkSig (g_disp g) (g_mask g) (insert_n sig (g_pend g)) (g_caught g))
+      else DOk (mkSig (g_disp g) (g_mask g) (g_pend g) (insert_n sig (g_caught g)))
+  | DDefault =>
+      if mem_n sig (g_mask g)
+      then DOk (mkSig (g_disp g) (g_mask g) (insert_n sig (g_pend g)) (g_caught g))
+      else if N.eqb sig sigtstp then DStop else DFatal
+  end.
+
+Definition with_sig (p : proc) (g : sigstate) : proc :=
+  mkProc (p_fds p) (p_cwd p) (p_umask p) g (p_limit p) (p_id p).
+
+(* the waiting ancestors in group [pg] get the signal; it must not kill or stop
+   any of them (they are the ones that collect the results) *)
+Fixpoint signal_ancestors (l : list proc) (pg : N) (sig : N) : option (list proc) :=
+  match l with
+  | [] => Some []
+  | p :: l' =>
+      match signal_ancestors l' pg sig with
+      | None => None
+      | Some l'' =>
+          if N.eqb (snd (p_id p)) pg then
+            match generate (p_sig p) sig with
+            | DOk g => Some (with_sig p g :: l'')
+            | _ => None
+            end
+          else Some (p :: l'')
+      end
+  end.
+
+(* the signal for the running process itself *)
+Definition signal_self (s : kstate) (susp' : list proc) (sig : N) : kstate * res :=
+  match generate (p_sig (k_cur s)) sig with
+  | DOk g => (mkK (k_ino s) (k_ofd s) (with_sig (k_cur s) g) susp' None, RUnit)
+  | DFatal =>
+      (* a child dies: nothing more of it is executed; the first process of a
+         sequence must survive *)
+      match k_susp s with
+      | [] => (s, ROut)
+      | _ => (mkK (k_ino s) (k_ofd s) (k_cur s) susp' (Some (sig, O)), RSkip)
+      end
+  | DStop =>
+      (* a stopped child is continued by its waiting parent: no effect *)
+      match k_susp s with
+      | [] => (s, ROut)
+      | _ => (mkK (k_ino s) (k_ofd s) (k_cur s) susp' None, RUnit)
+      end
+  | DUnspec => (s, ROut)
+  end.
+
+Definition k_kill (s : kstate) (t : ktarget) (sig : N) : kstate * res :=
+  if negb (N.ltb sig nsig) then (s, ROut) else
+  let me := k_cur s in
+  match t with
+  | TSelf => signal_self s (k_susp s) sig
+  | TParent =>
+      match k_susp s with
+      | [] => (s, ROut)
+      | p :: rest =>
+          match generate (p_sig p) sig with
+          | DOk g => (mkK (k_ino s) (k_ofd s) me (with_sig p g :: rest) None, RUnit)
+          | _ => (s, ROut)
+          end
+      end
+  | TGroup0 | TNegPgid =>
+      match signal_ancestors (k_susp s) (snd (p_id me)) sig with
+      | Some susp' => signal_self s susp' sig
+      | None => (s, ROut)
+      end
+  | TNegPid =>
+      (* only a group leader has a group named by its own ID; no other process
+         of a sequence can be in that group *)
+      if N.eqb (fst (p_id me)) (snd (p_id me)) then
+        match signal_ancestors (k_susp s) (snd (p_id me)) sig with
+        | Some susp' => signal_self s susp' sig
+        | None => (s, ROut)
+        end
+      else (s, RErr ESRCH)
   end.
 
 (* ---- one step, a run ------------------------------------------------------------------------------ *)
 
-Definition step (s : kstate) (o : op) : kstate * res :=
+Definition step_live (s : kstate) (o : op) : kstate * res :=
   match o with
   | OOpen p a f mode => k_open s p a f mode
   | OClose fd => k_close s fd
@@ -706,6 +856,9 @@ Definition step (s : kstate) (o : op) : kstate * res :=
   | OGetfd fd => k_getfd s fd
   | OSetfd fd cx => k_setfd s fd cx
   | OAccess fd => k_access s fd
+  | OSetrlimit n => k_setrlimit s n
+  | OSetpgid0 => k_setpgid0 s
+  | OKill t sig => k_kill s t sig
   | OSigaction sig d => k_sigaction s sig d
   | OGetSigaction sig => k_getsigaction s sig
   | ORaise sig => k_raise s sig
@@ -713,6 +866,26 @@ Definition step (s : kstate) (o : op) : kstate * res :=
   | OSigmask how sigs => k_sigmask s how sigs
   | OFork => k_fork s
   | OExit => k_exit s
+  end.
+
+(* a killed child executes nothing more; its exit reports the signal *)
+Definition step (s : kstate) (o : op) : kstate * res :=
+  match k_skip s with
+  | None => step_live s o
+  | Some (sig, d) =>
+      match o with
+      | OFork => (mkK (k_ino s) (k_ofd s) (k_cur s) (k_susp s) (Some (sig, S d)), RSkip)
+      | OExit =>
+          match d with
+          | O => match k_susp s with
+                 | [] => (s, ROut)
+                 | parent :: rest =>
+                     (mkK (k_ino s) (k_ofd s) parent rest None, RChild (CSignaled sig))
+                 end
+          | S d' => (mkK (k_ino s) (k_ofd s) (k_cur s) (k_susp s) (Some (sig, d')), RSkip)
+          end
+      | _ => (s, RSkip)
+      end
   end.
 
 Fixpoint run (s : kstate) (ops : list op) : kstate * list res :=
@@ -768,7 +941,7 @@ Definition init_state (tree : list init_entry) (um : N) : kstate :=
   let std i := mkOfd i 0 true true true in
   mkK ino [std 1%nat; std 2%nat; std 3%nat]
       (mkProc [(0%N, mkEnt 0 false); (1%N, mkEnt 1 false); (2%N, mkEnt 2 false)] [] um
-              (mkSig [] [] [] [])) [].
+              (mkSig [] [] [] []) default_limit (1%N, 1%N)) [] None.
 
 (* final tree below the scratch root: (path, kind, permission bits, bytes),
    depth first, entries of a directory in byte order of their names *)
